@@ -3,6 +3,7 @@ mod par;
 mod report;
 mod tree;
 mod valmc;
+mod histmc;
 mod sysmc;
 mod entrymc;
 mod replmc;
@@ -20,6 +21,9 @@ mod subject;
 
 fn main() {
     let args: Vec<String> = std::env::args().collect();
+    if args.len() >= 2 && args[1] == "--c05-history" {
+        histmc::history_main(args[2..].to_vec());
+    }
     if args.len() >= 2 && args[1] == "--fs-subject" {
         sysmc::fs_subject_main(args[2..].to_vec());
     }
@@ -60,6 +64,7 @@ fn main() {
         "C02" => progmc::c02(thorough, replay),
         "C03" => progmc::c03(thorough, replay),
         "C04" => clvmmc::c04(thorough, replay),
+        "C05" => histmc::c05(thorough, replay),
         "C06" => clvmmc::c06(thorough, replay),
         "C07" => conv::c07(thorough, replay),
         "C08" => valmc::c08(thorough, replay),
